@@ -136,6 +136,19 @@ Theorem C12_block_lengths_bounded :
 Proof. exact lengths_repaired. Qed.
 Print Assumptions C12_block_lengths_bounded.
 
+(* ... and exactly: shortest / longest / sum of block lengths are those of the non-overlapping pieces of the
+   independently determined phase sets (spec_blocks: the sets of the heterozygous records as blocks of their
+   members; spec_piece_lens: the splitting procedure of C12_pieces_disjoint applied to them).             *)
+Theorem C12_block_lengths_of_pieces :
+  forall (only_snvs : bool) (recs : list vrec) (chrlen : Z -> option Z) (cid : Z),
+  sorted_recs only_snvs recs ->
+  exists rows cr,
+    read_rows only_snvs None recs = Some rows /\
+    process_rows repaired_rules chrlen cid rows = Some cr /\
+    pieces_ok only_snvs recs (cr_row cr) = true.
+Proof. exact pieces_repaired. Qed.
+Print Assumptions C12_block_lengths_of_pieces.
+
 (* ------------------------------------------------------------------------------------------------
    all_row_additive (every rule set): for any sequence of successfully reported chromosomes, the
    statistics of the `+=`-aggregated object exist (no exception, the print assertion holds) and every
@@ -256,3 +269,11 @@ Example C12_example_all_row_cross_chromosome :
   | RErr _ => False
   end.
 Proof. vm_compute. reflexivity. Qed.
+
+(* three mutually interleaved sets {100,1050,1100}, {200,300,1000}, {400,1090}: the pieces are 200-300 of the
+   second and 1050-1100 of the first set: sum 150 <= covered span 1000 *)
+Example C12_example_three_interleaved :
+  let h := fun (p ps : Z) => mkRec p true 1 (mkCall (Some [Some 0; Some 1]) true (PSVal ps) None) in
+  let recs := [h 99 1; h 199 2; h 299 2; h 399 3; h 999 2; h 1049 1; h 1089 3; h 1099 1] in
+  spec_piece_lens (hets (counted false recs)) = Some [100; 50] /\ s_span (spec_of false recs) = 1000.
+Proof. vm_compute. split; reflexivity. Qed.
